@@ -78,6 +78,10 @@ where
 
 #[cfg(all(transparencies_stretto_verif, feature = "sync"))]
 impl<S> RingStripe<S> {
+    pub(crate) fn verif_capa(&self) -> usize {
+        self.capa
+    }
+
     pub(crate) fn verif_data(&self) -> Vec<u64> {
         self.data.lock().clone()
     }
@@ -85,6 +89,10 @@ impl<S> RingStripe<S> {
 
 #[cfg(all(transparencies_stretto_verif, feature = "async"))]
 impl<S> AsyncRingStripe<S> {
+    pub(crate) fn verif_capa(&self) -> usize {
+        self.capa
+    }
+
     pub(crate) fn verif_data(&self) -> Vec<u64> {
         self.data.lock().clone()
     }
